@@ -134,3 +134,14 @@ Example equals_ignores_padding_instance :
   equals_struct m_ex 8 d_ex (fr_sub v1) (fr_sub v2) = true /\
   equals_struct m_ex 8 d_ex (fr_sub v1) (fr_sub w2) = false.
 Proof. exact equals_ignores_padding. Qed.
+
+(* What "reads equal" means for a Float field: [float_eqb], the model of FloatView::Equals on the bit patterns
+   the view model carries, decides equality of the IEEE 754 VALUES of the two patterns (operator== on float /
+   double: a NaN equals nothing, +0 = -0, otherwise the same real number (-1)^s * m * 2^e), for every pair of
+   32-bit and every pair of 64-bit patterns.  The IEEE decoding is View/FloatSpec.v (no floating-point library). *)
+Require Import EmbossV.View.FloatSpec.
+Theorem float_equals_is_ieee_equality : forall kbits a b,
+  kbits = 32 \/ kbits = 64 -> 0 <= a < 2 ^ kbits -> 0 <= b < 2 ^ kbits ->
+  float_eqb kbits a b = ieee_eq (decode kbits a) (decode kbits b).
+Proof. intros kbits a b Hk. exact (float_eqb_is_ieee_eq kbits Hk a b). Qed.
+Print Assumptions float_equals_is_ieee_equality.
